@@ -96,6 +96,15 @@ def objects(rng, thorough):
         las.append_curve("OBJF", np.array([1.5, np.nan, 3.5], dtype=object))
         return las
     yield "object-curves", objcurve
+    def smallfloats():
+        las = base(n=3)
+        las.append_curve("F32", np.array([1.5, np.nan, 3.5], dtype=np.float32))         # numpy scalars that are not Python floats
+        las.append_curve("F16", np.array([0.5, 2.0, np.nan], dtype=np.float16))
+        las.append_curve("I32", np.array([1, 2, 3], dtype=np.int32))
+        las.params.append(HeaderItem("F32V", "", np.float32("nan"), "float32 NaN value"))
+        las.params.append(HeaderItem("F32W", "", np.float32(2.5), "float32 value"))
+        return las
+    yield "small-floats", smallfloats
     def nonfinite():
         las = base(n=4, nan=True)
         las.append_curve("BIG", np.array([1.0, np.inf, -np.inf, 1.7976931348623157e308]))
